@@ -572,7 +572,60 @@ def r9_checked_cuts_verify_on_every_path(cx):
         cx.ob = orig
 
 
+R10_EXEMPT = {
+    "open_as_container_pack": "the blind open: a header that does not parse at offset 0 sends it to the mirrored header at the end of the file (C10-R3); every other error is returned",
+}
+
+
+def r10_block_errors_end_the_operation(cx):
+    """a block that fails its CRC (or does not parse) is reported: in the reader, the error of `parse_block_at /
+    parse_block_in / parse_data_block / parse_in` ends the operation it belongs to. Where the result is handled by hand
+    instead of `?`, the error arm leads to an error exit -- it does not go on (to the next iteration, to a default): a loop
+    that "skips" an unreadable block either never advances (it spins on the same bytes forever) or drops what the block
+    described."""
+    F = cx.F
+    n = 0
+    for f in F.live_fns:
+        if "blocks" not in f or not re.search(r"^<?reader::| as reader::", f["name"]):
+            continue
+        b = None
+        for i, blk in enumerate(f["blocks"]):
+            t = blk["t"]
+            if blk.get("cleanup") or not call_is(t, r"Reader::parse_block_at::<", r"Reader::parse_block_in::<", r"Reader::parse_data_block::<", r"CheckReader::parse_in::<"):
+                continue
+            b = b or F.body(f)
+            n += 1
+            nm = re.sub(r"<.*?>", "", F.effective_owner(f)["name"]).split("::")[-1]
+            handled = []
+            for sw in range(b.n):
+                st = b.term(sw)
+                if st["k"] != "switch" or b.is_cleanup(sw):
+                    continue
+                o = b.origins(st["op"], through_calls=False)
+                if ("call", i) not in o:
+                    continue       # through `?` the switch is on the result of Try::branch, not on the call itself
+                arms = [a for a in dict.fromkeys(st["targets"] + [st["otherwise"]]) if b.term(a)["k"] != "unreachable"]
+                exits = b.error_blocks() | b.err_return_blocks() | b.panic_blocks()
+                for a in arms:
+                    # the arm taken on Err: the one from which the Ok payload is not read
+                    pass
+                # an arm that can come back to this very call, or reach a normal return, without passing an error exit
+                err_arm = st["targets"][st["vals"].index(1)] if 1 in st["vals"] else st["otherwise"]
+                r = b.reachable(err_arm, avoid=exits | {sw})
+                goes_on = (i in r) or any(b.term(x)["k"] == "return" for x in r)
+                if goes_on:
+                    handled.append(b.ln(sw))
+            if nm in R10_EXEMPT:
+                cx.ob("R10", "R10/%s/exempt" % nm, True, f, "error of the parse at line %s handled on purpose: %s" % (t.get("ln"), R10_EXEMPT[nm]), ln=t.get("ln"), trivial=True)
+                continue
+            cx.ob("R10", "R10/%s/block-error-ends-the-operation" % nm, not handled, f,
+                  "the error of the block parse at line %s is propagated (`?`) or leads to an error exit (error arms that go on: lines %s)" % (t.get("ln"), handled), ln=t.get("ln"))
+    if n < 15:
+        raise AnchorLost("block parses in the reader: %d" % n)
+
+
 RULES = [
+    ("R10", r10_block_errors_end_the_operation, 15),
     ("R9", r9_checked_cuts_verify_on_every_path, 1),
     ("R8", r8_no_recursion_on_file_contents, 1),
     ("R1", r1_pool_task, 2),
